@@ -31,12 +31,13 @@ CONFIGS = ["generic", "nv", "nv+transpiler"]
 
 
 class World:
-    def __init__(self, budget: int, config: str):
+    def __init__(self, budget: int, config: str, reset: bool = True, app_name: str = "alice"):
         from netqasm.lang.instr.flavour import NVFlavour
         from netqasm.sdk.build_types import GenericHardwareConfig, NVHardwareConfig
         from netqasm.sdk.epr_socket import EPRSocket
         from netqasm.sdk.transpile import NVSubroutineTranspiler
-        world.reset()
+        if reset:
+            world.reset()
         self.budget = budget
         # "<config>/flushed": every operation is followed by a flush at once; the state then is only (handles, allocation),
         # so the graph closes and histories of any length are covered (with a flush after every operation)
@@ -53,7 +54,7 @@ class World:
             if config == "nv+transpiler":
                 kwargs["compiler"] = NVSubroutineTranspiler
                 flavour = NVFlavour()
-        self.ctrl, self.conn = simctl.make_pair("alice", flavour=flavour, horizon=20000, **kwargs)
+        self.ctrl, self.conn = simctl.make_pair(app_name, flavour=flavour, horizon=20000, **kwargs)
         self.link = netstack.AutoLink(self.ctrl)
         self.live: List[Any] = []          # handles the program still holds
         self.must_flush = False
@@ -302,6 +303,57 @@ def bfs(ctx, budget: int, config: str, depth: int, cap: int):
     return frontier
 
 
+def shard_coexist(shard):
+    """Two connections (to two controllers) alive in one process at the same time: each must agree with its own controller,
+    whatever the other one does - qubit bookkeeping is per connection."""
+    _, config = shard
+    part = new_part()
+    scripts = [
+        ([("new",), ("new",)], [("new",), ("flush",)], [("flush",)], [("measure", 0), ("flush",)]),
+        ([("new",), ("flush",)], [("new",), ("new",), ("flush",), ("free", 1), ("flush",)], [("measure", 0), ("flush",)], [("new",), ("flush",)]),
+        ([("create_keep", 1), ("flush",)], [("recv_keep", 1), ("flush",)], [("free", 0), ("flush",)], [("gate", 0), ("flush",)]),
+    ]
+    for si, (a1, b1, a2, b2) in enumerate(scripts):
+        case = {"budget": 3, "config": config, "coexist": si, "script": [list(map(list, x)) for x in (a1, b1, a2, b2)]}
+        part["evals"] += 1
+        part["distinct"] += 1
+        try:
+            wa = World(3, config)
+            for ev in a1:
+                apply(wa, ev)
+            wb = World(3, config, reset=False, app_name="charlie")
+            if wb.conn.active_qubits:
+                add_violation(part, "coexisting-connections/new-connection-not-empty", f"{config}: a new connection starts with active "
+                              f"qubits {[q.qubit_id for q in wb.conn.active_qubits]} while another connection holds qubits", case)
+                continue
+            steps = [(wb, b1), (wa, a2), (wb, b2)]
+            bad = False
+            for w, evs in steps:
+                for ev in evs:
+                    apply(w, ev)
+                for who, x in (("first", wa), ("second", wb)):
+                    if x.conn.builder._pending_commands:
+                        continue
+                    alloc = x.allocated()
+                    active = sorted(q.qubit_id for q in x.conn.active_qubits)
+                    live = sorted(q.qubit_id for q in x.live)
+                    if not (active == alloc == live):
+                        add_violation(part, f"coexisting-connections/{who}-disagrees", f"{config}: with two connections alive, the {who} "
+                                      f"one has active ids {active}, handles {live}, its controller allocated {alloc}", case)
+                        bad = True
+                        break
+                if bad:
+                    break
+            if not bad:
+                count(part, "coexist-agrees")
+        except (simctl.Blocked, simctl.Horizon) as exc:
+            add_violation(part, "coexisting-connections/blocks", f"{config}: {type(exc).__name__}: {exc}", case)
+        except Exception as exc:
+            add_violation(part, f"coexisting-connections/{classify(exc)}", f"{config}: {type(exc).__name__}: "
+                          f"{str(exc).splitlines()[0][:160] if str(exc) else ''}", case)
+    return part
+
+
 def _det(case):
     budget, config, hist = case
     w, err = build(budget, config, hist)
@@ -329,6 +381,8 @@ def run(ctx):
             left = bfs(ctx, budget, config + "/flushed", 60, cap)
             if left:
                 ctx.total["caps"].append(f"{config}/flushed budget {budget}: graph not closed within depth 60")
+    ctx.pmap(shard_coexist, [("coexist", c) for c in CONFIGS])
+    ctx.require("coexist-agrees", 3)
     ctx.exhaustive = True
     ctx.total["samples"].append({"budget": 3, "config": "nv", "history": [["new"], ["create_keep", 1], ["flush"], ["measure", 0], ["flush"]]})
     for k in ("flush", "new", "gate", "cnot", "meas_inplace", "measure", "free", "create_keep", "recv_keep", "create_seq_post",
@@ -339,6 +393,9 @@ def run(ctx):
 
 
 def replay(case, part):
+    if "coexist" in case:
+        part["violations"].extend(shard_coexist(("coexist", case["config"]))["violations"])
+        return
     h = [tuple(e) for e in case["history"]]
     p = expand((case["budget"], case["config"], [h[:-1]]))
     for v in p["violations"]:
